@@ -135,8 +135,18 @@ func cmdCheck(args []string) {
 	sym.InitPool(*workers, "z3", 30000)
 	defer sym.ClosePool()
 	deadline := time.Time{}
+	if *budget == 0 {
+		// a check always ends: past this wall-clock budget the symbolic execution of the remaining paths is
+		// cut short and the instances concerned are reported INCONCLUSIVE (a changed tree can make queries slow)
+		if *tier == "quick" {
+			*budget = 20 * time.Minute
+		} else {
+			*budget = 100 * time.Minute
+		}
+	}
 	if *budget > 0 {
 		deadline = t0.Add(*budget)
+		sym.RunDeadline = deadline
 	}
 	sem := make(chan struct{}, *workers)
 	var wg sync.WaitGroup
@@ -195,7 +205,7 @@ func cmdCheck(args []string) {
 			cfg := sym.RunConfig{PkgPath: pr.ModPath + "/" + pkg, Harness: in.hp.Fn, Params: in.params, MaxSteps: steps, MaxDepth: 300, MaxMake: maxMakeOf(in.hp),
 				Workers: *workers, UsePool: true, SolverBin: in.hp.Solver, Known: known, MapOrderMax: mo, MapOrderSticky: in.hp.Sticky, SchedChoice: in.hp.Sched, MaxSchedPoints: in.hp.SchedMax, Deadline: deadline, MaxPaths: 200000}
 			in.res = pr.Run(cfg)
-			if len(in.res.Unknown) > 0 && len(in.res.Violations) == 0 && in.hp.Solver != "cvc5" {
+			if len(in.res.Unknown) > 0 && len(in.res.Violations) == 0 && in.hp.Solver != "cvc5" && (deadline.IsZero() || time.Now().Before(deadline)) {
 				// second opinion: re-run the whole instance with cvc5 (bit-blasts eagerly; decides some
 				// queries on which z3's incremental core gives up)
 				cfg2 := cfg
@@ -303,15 +313,37 @@ func cmdCheck(args []string) {
 			pending = append(pending, pendingViol{in, v, writeReplay(*outDir, *prop, in, v)})
 		}
 	}
-	// replay natively (at most maxReplays; the rest are listed without a verdict)
-	const maxReplays = 6
+	// replay natively (at most maxReplays; the rest are listed without a verdict).  Candidates are taken
+	// round robin over the harness functions, so that many witnesses of one harness (possibly all of the
+	// same spurious kind) do not keep the witnesses of another harness from being replayed.
+	const maxReplays = 12
+	{
+		byFn := map[string][]pendingViol{}
+		var order []string
+		for _, pv := range pending {
+			if _, ok := byFn[pv.in.hp.Fn]; !ok {
+				order = append(order, pv.in.hp.Fn)
+			}
+			byFn[pv.in.hp.Fn] = append(byFn[pv.in.hp.Fn], pv)
+		}
+		var mixed []pendingViol
+		for len(mixed) < len(pending) {
+			for _, fn := range order {
+				if len(byFn[fn]) > 0 {
+					mixed = append(mixed, byFn[fn][0])
+					byFn[fn] = byFn[fn][1:]
+				}
+			}
+		}
+		pending = mixed
+	}
 	type rres struct {
 		ok  bool
 		out string
 	}
 	results := make([]rres, len(pending))
 	var rwg sync.WaitGroup
-	rsem := make(chan struct{}, 6)
+	rsem := make(chan struct{}, 6) // six native replays at a time
 	for i, pv := range pending {
 		if i >= maxReplays || *noReplay {
 			break
